@@ -21,6 +21,7 @@ require (
 	github.com/muhlemmer/httpforwarded v0.1.0 // indirect
 	golang.org/x/exp v0.0.0-20230817173708-d852ddb80c63 // indirect
 	golang.org/x/sys v0.11.0 // indirect
+	golang.org/x/text v0.8.0 // indirect
 )
 
 replace github.com/zitadel/saml => /repo
